@@ -243,4 +243,38 @@ end
 
 end
 
+/-! ### the non-tail hypotheses are satisfiable: the concrete 2-child tree of `mdsEx` (threshold 40, model element layer)
+    The tail hypotheses (and the counter monotonicity of the model's `MDataSlab.set`) stay hypotheses here: they are
+    discharged by Props/TransMapRestruct*.lean for `rsOf T`. -/
+namespace mdsEx
+
+theorem ex_ff : mds_FreshFree (r := 0) cfg2.addr s2 := by
+  intro id _ hlt
+  have h0 : id ≠ id0 := fun e => by rw [e] at hlt; exact absurd hlt (by decide)
+  have h1 : id ≠ id1 := fun e => by rw [e] at hlt; exact absurd hlt (by decide)
+  have h2 : id ≠ id2 := fun e => by rw [e] at hlt; exact absurd hlt (by decide)
+  show (if id = id0 then _ else if id = id1 then _ else if id = id2 then _ else none) = none
+  rw [if_neg h0, if_neg h1, if_neg h2]
+
+theorem ex_pathF : mds_PathF (r := 0) cfg2 kk vv (fun _ => True) (fun _ _ => True) 1 mm s2.ctx := by
+  refine ⟨by decide, by decide, rfl, fun _ _ => trivial, d2, rfl, rfl, ⟨trivial, rfl, rfl⟩, ?_⟩
+  intro ks old child' c1 h
+  have hv := ex_child_ok
+  rw [h] at hv
+  simp only [Bool.and_eq_true, decide_eq_true_eq, Bool.not_eq_true', Option.isNone_iff_eq_none] at hv
+  exact hv.1.1
+
+example (rs : DRestruct 0) (hS : MSplitTail cfg2.T rs (fun _ _ => True)) (hM : MMorTail cfg2.T rs (fun _ _ => True))
+    (hmono : ∀ (sl : MDataSlab 0) c ks old sl' c', MDataSlab.set cfg2 sl kk vv c = .ok (ks, old, sl', c') → c.ctr ≤ c'.ctr) :=
+  Ob_MapSlab_Set_heap_of_tails eb2 rs cfg2 kk vv (fun _ => True) (fun _ _ => True) (eb2_spec kk vv) hS hM
+    (fun _ _ _ _ _ _ _ _ _ => trivial) hmono (by decide) (by decide) (by decide) 1 1 mm (some xx) (some xx) s2
+    (Nat.le_refl 1) ⟨rfl, fun c hc => by
+      rcases List.mem_cons.mp hc with rfl | hc
+      · rfl
+      · rcases List.mem_cons.mp hc with rfl | hc
+        · rfl
+        · cases hc⟩ rfl (by decide) (by decide) ex_ff ex_pathF
+
+end mdsEx
+
 end Atree.TransEq
